@@ -6,7 +6,7 @@
     object_space_index aperture_value polarization uses_polarization.  r_x .. r_w project the returned ray (x y z L M N intensity wavelength);
     offset EPL EPD pos = k_rg_z_offset ROps pos EPD EPL (launch plane distance), zmin pos = min of positions[1:-1]; tanx Hx mf = tan(deg(mf*Hx)), tany Hy mf likewise. *)
 From Coq Require Import Reals ZArith List String.
-From OV Require Import Ops RInst XR OpsC03 OpsC18 Gen.Standard Gen.RayGen Gen.Distrib Spec.S_C03 Model.M_C03 Lemmas.L_C03_table Lemmas.L_C03_launch Lemmas.L_C03_dist Lemmas.L_C03_vig Lemmas.L_C03_all.
+From OV Require Import Ops RInst XR OpsC03 OpsC18 Gen.Standard Gen.RayGen Gen.Distrib Spec.S_C03 Model.M_C03 Gen.Fields Lemmas.L_C03_fields Lemmas.L_C03_table Lemmas.L_C03_launch Lemmas.L_C03_dist Lemmas.L_C03_vig Lemmas.L_C03_all.
 Local Open Scope R_scope.
 Import ListNotations.
 
@@ -258,4 +258,14 @@ Theorem C03_aim_shrinks :
        unit_interval v -> (Rabs (P * (1 - v) * EPD / 2) <= Rabs (P * EPD / 2))%R.
 Proof. exact aim_shrinks. Qed.
 Print Assumptions C03_aim_shrinks.
+
+Theorem C03_max_field_is_largest_magnitude :
+  forall xs ys : list R,
+       combine xs ys <> nil ->
+       let m := k_fld_max_field ROps xs ys in
+       (forall p : R * R, In p (combine xs ys) -> (magnitude p <= m)%R) /\
+       (exists p : R * R, In p (combine xs ys) /\ m = magnitude p) /\
+       (forall p : R * R, In p (combine xs ys) -> (Rabs (fst p) <= m)%R /\ (Rabs (snd p) <= m)%R).
+Proof. exact max_field_is_largest_magnitude. Qed.
+Print Assumptions C03_max_field_is_largest_magnitude.
 
